@@ -48,6 +48,10 @@ func genClients(ts *sim.Tapes, cfg work.Config, prop, tier string) (prelude *wor
 		nr = 1 + t.Intn(5)
 		nw = 1 + t.Intn(2)
 	}
+	if prop == "C01" {
+		nw = 2 + t.Intn(2) // several writers queueing for the writer lock
+		nr = t.Intn(3)
+	}
 	if prop == "C14" {
 		nr = t.Intn(2)
 		nw = 1 + t.Intn(2)
@@ -139,6 +143,17 @@ func (ss schedsim) Gen(prop, tier string, ts *sim.Tapes) *Case {
 	prelude, clients := genClients(ts, cfg, prop, tier)
 	c := &Case{Prop: prop, Engine: ss.Name(), Tier: tier, Seed: ts.Seed, Run: ts.Run, Prog: prelude, Clients: clients,
 		Tapes: map[string][]uint64{}, Params: map[string]int{"stickiness": []int{0, 50, 80, 95}[t.Pick(1, 2, 3, 2)]}}
+	if prop == "C01" {
+		// small files: every crash state is written, opened, decoded and committed to
+		c.Prog.Cfg.AllocSize = 8 * c.Prog.Cfg.PageSize
+		if c.Prog.Cfg.InitialMmapSize > 1<<20 {
+			c.Prog.Cfg.InitialMmapSize = 1 << 20
+		}
+		c.Params["crash_budget"] = 120
+		if tier == "thorough" {
+			c.Params["crash_budget"] = 600
+		}
+	}
 	if prop == "C08" {
 		// I/O faults while the tasks run: armed-call indices over the concurrent phase
 		ft := ts.Get("fault")
@@ -359,6 +374,12 @@ func (ss schedsim) runInBubble(c *Case, dir string, out *Outcome) {
 		}
 		w.Disk = disk
 	}
+	if c.Prop == "C01" {
+		// the shadow disk records every I/O call of the concurrent phase: crash states are built from it afterwards
+		disk = sim.NewDisk(path)
+		disk.Record = true
+		w.Disk = disk
+	}
 	w.Install()
 	defer sim.Uninstall()
 
@@ -380,8 +401,16 @@ func (ss schedsim) runInBubble(c *Case, dir string, out *Outcome) {
 	}
 	m = &mtWorld{db: pe.DB, cfg: cfg, s: s, versions: map[int]*model.Bucket{}, inflight: map[int]*model.Bucket{}, probes: map[string]int{}, readerAge: map[int]int{},
 		used: map[int]map[uint64]bool{}, readersOpen: map[int]int{}, disk: disk, faultedBody: map[int]string{}}
-	if disk != nil {
+	if disk != nil && c.Prop == "C08" {
 		disk.Arm(true)
+	}
+	if c.Prop == "C01" {
+		base, rerr := os.ReadFile(path)
+		if rerr != nil {
+			out.HarnessErr = rerr.Error()
+			return
+		}
+		disk.Base, disk.Log = base, nil // everything the prelude wrote is synced
 	}
 	m.versions[pe.LastTxid] = pe.Cur
 	m.lastRet = pe.LastTxid
@@ -488,6 +517,10 @@ func (ss schedsim) runInBubble(c *Case, dir string, out *Outcome) {
 				v.Prop = "C08"
 			}
 		}
+	}
+	if c.Prop == "C01" && s.Deadlock == "" && !s.Stuck && len(m.viol) == 0 && disk != nil {
+		sim.Uninstall()
+		ss.crashStates(c, m, pe, disk, path, out)
 	}
 	if n := m.probes["backup-writer-fails"]; n > 0 {
 		out.fault("backup-destination-writer-fails", n)
@@ -729,6 +762,9 @@ func (ss schedsim) writer(m *mtWorld, e *work.Exec, txn *work.Txn, t *sim.Task) 
 	}
 	if committed {
 		m.versions[id] = w
+		if m.disk != nil && m.disk.Record {
+			m.disk.Marker("commit-returned", id)
+		}
 		if id > m.lastRet {
 			m.lastRet = id
 		}
@@ -844,6 +880,92 @@ func (w *yieldWriter) Write(p []byte) (int, error) {
 		w.t.Pause("backup.write")
 	}
 	return w.buf.Write(p)
+}
+
+// crashStates (C01's concurrent arm): the I/O log of a multi-task run is cut at sampled points, with sampled
+// subsets of the not yet synced units persisted, and every image must recover to an acknowledged or in-flight
+// version - whatever the interleaving of the writers queueing for the writer lock was.
+func (ss schedsim) crashStates(c *Case, m *mtWorld, pe *work.Exec, disk *sim.Disk, path string, out *Outcome) {
+	startTxid := -1
+	for id := range m.versions {
+		if startTxid < 0 || id < startTxid {
+			startTxid = id
+		}
+	}
+	var states []sim.CrashSpec
+	var recov []work.OpenOpts
+	if len(c.Extra) > 0 {
+		var pinned crashExtra
+		if json.Unmarshal(c.Extra, &pinned) == nil {
+			states, recov = pinned.States, pinned.Recover
+		}
+	}
+	if len(states) == 0 {
+		states, recov = enumerateCrashStates(disk, c, sim.NewTape(c.Seed, c.Run, "crash"))
+	}
+	ve := work.NewExec(path, m.cfg)
+	ve.Versions = m.versions
+	rpath := path + ".rec"
+	defer os.Remove(rpath)
+	for si, spec := range states {
+		if PastDeadline() {
+			break
+		}
+		Tick()
+		acked := startTxid
+		for i := 0; i < spec.Point && i < len(disk.Log); i++ {
+			if ev := &disk.Log[i]; ev.Kind == "marker" && ev.Marker == "commit-returned" && ev.Txid > acked {
+				acked = ev.Txid
+			}
+		}
+		img, nvol, nkept := disk.Image(spec)
+		// under concurrency a commit may be complete on disk long before its task is scheduled again and records
+		// "returned": what may legitimately be found is any version from the last *recorded* return up to the
+		// newest transaction whose meta write had been issued before the crash point
+		maxMeta := acked
+		ps := m.cfg.PageSize
+		for i := 0; i <= spec.Point && i < len(disk.Log); i++ {
+			ev := &disk.Log[i]
+			if ev.Kind == "write" && ev.Off < int64(2*ps) && len(ev.Data) >= dec.PageHeaderSize+dec.MetaSize && (i < spec.Point || spec.InUnits > 0) {
+				if mt := dec.ParseMeta(ev.Data[dec.PageHeaderSize:]); mt.Valid && int(mt.Txid) > maxMeta {
+					maxMeta = int(mt.Txid)
+				}
+			}
+		}
+		inflight := -1
+		if m.versions[acked+1] != nil {
+			inflight = acked + 1
+		}
+		if im, lerr := dec.Load(img); lerr == nil {
+			if wi, ok := im.Winner(); ok {
+				if t := int(im.Metas[wi].Txid); t > acked && t <= maxMeta {
+					inflight = t
+					if t > acked+1 {
+						out.probe("recovered-a-commit-completed-before-its-return-was-recorded", 1)
+					}
+				}
+			}
+		}
+		if nvol > 0 {
+			out.fault("crash-with-unsynced-units(concurrent run)", 1)
+			if nkept > 0 && nkept < nvol {
+				out.fault("crash-partial-subset-persisted(concurrent run)", 1)
+			}
+		}
+		out.Evals++
+		ro := work.OpenOpts{GivePageSize: true, Freelist: "array"}
+		if si < len(recov) {
+			ro = recov[si]
+		}
+		if v := checkCrashState(ve, img, spec, acked, inflight, rpath, ro, out); v != nil {
+			v.Msg = "concurrent run: " + v.Msg
+			m.viol = append(m.viol, v)
+			ex := crashExtra{States: []sim.CrashSpec{spec}, Recover: []work.OpenOpts{ro}}
+			c.Extra, _ = json.Marshal(ex)
+			return
+		}
+	}
+	out.probe("concurrent-crash-states", len(states))
 }
 
 // failingWriter accepts limit bytes and then fails (a full or broken destination).
@@ -1101,6 +1223,12 @@ func (ss schedsim) Shrinks(c *Case) []*Case {
 		}
 	}
 	sort.SliceStable(out, func(i, j int) bool { return false })
+	if c.Prop == "C01" {
+		// a pinned crash state refers to log indices of the unshrunk run: candidates re-enumerate
+		for _, d := range out {
+			d.Extra = nil
+		}
+	}
 	return out
 }
 
